@@ -49,6 +49,7 @@ MOTHERS = [("D*(2010)+", "D*+"), ("K*(892)0", "K*0"), ("B~0", "anti-B0"), ("D(s)
            ("D*(2010)-", "D*-"), ("B0", "B0"), ("psi(2S)", "psi(2S)")]
 
 PALETTE6 = ["1e-12", "3.3392e-05", "0.011738247", "0.1234567891", "0.3", "1.0"]
+PALETTE5 = ["1e-12", "3.3392e-05", "0.011738247", "0.3", "1.0"]
 PALETTE3 = ["3.3392e-05", "0.1234567891", "0.3"]
 SCALES_OK = [1, 1.0, 0.5, 0.001, 0.37]
 SCALES_BAD = [0, -0.5, 1.5, 1.0000001, 2]
@@ -250,8 +251,9 @@ def _tables(tier, seed):
         parts = [(PALETTE6, range(1, 5)), (PALETTE3, range(5, 7))]
         desc = "all assignments of the 6 literals %s to 1..4 lines and of the 3 literals %s to 5..6 lines" % (PALETTE6, PALETTE3)
     else:
-        parts = [(PALETTE6, range(1, 7)), (PALETTE3, range(7, 8))]
-        desc = ("all assignments of the 6 literals %s to 1..6 lines and of the 3 literals %s to 7 lines" % (PALETTE6, PALETTE3))
+        parts = [(PALETTE6, range(1, 6)), (PALETTE5, range(6, 7)), (PALETTE3, range(7, 8))]
+        desc = ("all assignments of the 6 literals %s to 1..5 lines, of the 5 literals %s to 6 lines and of the 3 literals %s to 7 "
+                "lines" % (PALETTE6, PALETTE5, PALETTE3))
     for pal, ns in parts:
         for n in ns:
             tabs.extend(itertools.product(pal, repeat=n))
